@@ -46,6 +46,8 @@ PERIODIC = {"dihedral": 360.0, "polarPhi": 360.0, "spinAngle": 360.0, "eulerPhi"
 # ---------------------------------------------------------------------------------------------
 
 def group_block(key, listing, extra=None):
+    if isinstance(listing, dict):      # a dummy atom at a fixed position
+        return ["    %s {" % key, "      dummyAtom " + vec(listing["dummy"]), "    }"]
     s = ["    %s {" % key, "      atomNumbers " + " ".join(str(i) for i in listing)]
     for l in (extra or []):
         s.append("      " + l)
@@ -100,10 +102,15 @@ def comp_block(c):
 
 
 def config_of(cases, name="c"):
-    """one variable made of the given component cases"""
+    """one variable made of the given component cases (optionally nested in a linearCombination component)"""
     s = ["colvar {", "  name " + name]
+    wrap = cases[0].get("wrap")
+    if wrap:
+        s.append("  %s {" % wrap)
     for c in cases:
         s += comp_block(c)
+    if wrap:
+        s.append("  }")
     s.append("}")
     return s
 
@@ -151,6 +158,9 @@ def model_tokens(c):
     if comp == "hBond":
         t += [hx(p["r0"]), "%d" % p["en"], "%d" % p["ed"]]
     for listing in c["groups"]:
+        if isinstance(listing, dict):  # a dummy atom behaves as one atom of unit mass at that position
+            t += ["G", "1", "9999", hx(1.0), hx(0.0)] + [hx(x) for x in listing["dummy"]]
+            continue
         t += ["G", "%d" % len(listing)]
         for i in listing:
             a = c["atoms"][i - 1]
@@ -181,6 +191,8 @@ def matvec(M, v): return [dot(M[0], v), dot(M[1], v), dot(M[2], v)]
 
 
 def dedup(listing):
+    if isinstance(listing, dict):
+        return listing
     out = []
     for i in listing:
         if i not in out:
@@ -189,6 +201,8 @@ def dedup(listing):
 
 
 def com_of(atoms, listing):
+    if isinstance(listing, dict):
+        return list(listing["dummy"])
     ids = dedup(listing)
     M = sum(atoms[i - 1][0] for i in ids)
     s = [0.0, 0.0, 0.0]
